@@ -77,7 +77,11 @@ OddLines  == {"quoted_ctl",   \* a quoted string holding NUL / bare CR / another
               "lit0",         \* a literal {0}
               "litbig",       \* a literal announced above the size cap (nothing is sent after it)
               "nest10", "nest1000", "nest1e6",   \* SEARCH with that many nested parentheses / NOTs
-              "bigline"}      \* a line holding a 1 MB atom
+              "bigline",      \* a line holding a 1 MB atom
+              "bare_lf",      \* a1 NOOP<LF>: the server resynchronises at line feeds (its recovery rule after a syntax error is
+                              \* "skip to the next LF"): the line is answered at once - not only when another line arrives, and
+                              \* not at the price of that other line
+              "raw8bit"}      \* LIST / LSUB / STATUS whose strings hold bytes that are not UTF-8
 \* streams that end: the client closes the connection in the middle of something (or gives up after a TLS hello)
 EofLines  == {"quoted_eof", "lit_eof", "token_eof", "tlshello"}
 HeavyLines == {"nest1e6", "bigline"}
@@ -200,6 +204,7 @@ OutLine(s, x) ==
     \* an oversized number is a syntax error wherever it stands
     [] x \in {"num32", "num64"} -> Bad(s)
     [] x \in {"quoted_ctl", "lit0", "litbig", "bigline"} -> [Refused(s) EXCEPT !.kind = "keep"]
+    [] x \in {"bare_lf", "raw8bit"} -> [Base(s) EXCEPT !.res = {"OK", "NO", "BAD"}, !.kind = "keep"]
     \* SEARCH needs a selected mailbox; a server may also put a limit on the nesting
     [] x = "nest10" -> IF phase[s] = "Selected" THEN [Ok(s) EXCEPT !.kind = "keep"] ELSE [Refused(s) EXCEPT !.kind = "keep"]
     [] x \in {"nest1000", "nest1e6"} ->
